@@ -640,7 +640,7 @@ FUNCS = {"Mark": (["i64"], "bnone"), "IdI": (["i"], "(becho 0)"), "IdI8": (["i8"
          "IdI32": (["i32"], "(becho 0)"), "IdI64": (["i64"], "(becho 0)"), "IdU": (["u"], "(becho 0)"), "IdU8": (["u8"], "(becho 0)"),
          "IdU16": (["u16"], "(becho 0)"), "IdU32": (["u32"], "(becho 0)"), "IdU64": (["u64"], "(becho 0)"), "IdF32": (["f32"], "(becho 0)"),
          "IdF64": (["f64"], "(becho 0)"), "IdS": (["s"], "(becho 0)"), "IdB": (["b"], "(becho 0)"), "Two": (["i64", "f64"], "(becho 0)"),
-         "Mix3": (["u8", "s", "i32"], "(becho 2)"), "NoRet": ([], "bnone"), "Boom": ([], "bpanic"), "Hold": (["s"], "bnone"), "Gate": (["s"], "bnone"), "After": (["s"], "bnone")}
+         "Mix3": (["u8", "s", "i32"], "(becho 2)"), "NoRet": ([], "bnone"), "Boom": ([], "bpanic"), "BoomErr": ([], "bpanic"), "BoomRT": ([], "bpanic"), "Hold": (["s"], "bnone"), "Gate": (["s"], "bnone"), "After": (["s"], "bnone")}
 HOST_METHODS = {"Mark": (["i64"], "bnone"), "Id64": (["i64"], "(becho 0)"), "IdU8": (["u8"], "(becho 0)"), "IdF64": (["f64"], "(becho 0)"), "Boom": ([], "bpanic"),
                 "Echo": (["i64"], "(becho 0)")}
 SUB_METHODS = {"GetN": (["i32"], "(becho 0)"), "EchoN": (["i32"], "(becho 0)")}
